@@ -96,7 +96,7 @@ var targetFields = map[string]fieldInfo{
 	"PreBuildFunction": {"FPreBuild", "func"}, "PostBuildFunction": {"FPostBuild", "func"},
 	"Test.Outputs": {"FTestOutputs", "list"}, "Test.Sandbox": {"FTestSandbox", "bool"},
 	"Test.ArgsPlaceholder": {"FTestArgsPlaceholder", "str"},
-	"Tools": {"FTools", "list"}, "Sources": {"FSrcs", "inputs"}, "Data": {"FData", "inputs"},
+	"Tools":                {"FTools", "list"}, "Sources": {"FSrcs", "inputs"}, "Data": {"FData", "inputs"},
 	"NamedSecrets": {"FNamedSecrets", "groups"},
 }
 
